@@ -16,6 +16,11 @@ timedout(T) turns true at the first sweep with now - last_recv >= T and not befo
 at the first update later than last_recv + 5 s and not before; unanswered connect — DISCONNECTED at the first
 update later than the configured time-out, callback exactly once with False; setters never raise and the
 connection carries the values set last.
+Server settings at every moment (settings_world): the real server loop behind every front door (harness/srvx.py), the ServerContext
+configured before the server object is built OR between construction and start through the public setters (and set again while running):
+a silent client gets its disconnect event at the first sweep with now - last datagram >= the configured connection time-out and not before,
+a peer stalled after its hello loses its slot after the configured handshake time-out, new connections carry the configured keep-alive
+interval and message time-out, the idle client stays; replayed on Server.v with the configured values (unit srv_run).
 Two-endpoint composition (Model/TimedNet.v, theorems C12_idle_pair_*):
   * idle_pair_run (1210): joint timed schedules (harness/idlesim.py) of an established idle pair — both real
     endpoints under one virtual clock, the server loop's sweep rule applied as server.py does, datagrams
@@ -41,6 +46,8 @@ ASSUMPTIONS = ["time values are multiples of 1/1024 s (exact in binary floating 
                "sides call update() at least every tau, fewer than half the sequence ring alive (life <= 32766 * (max(K, si) + 1)), "
                "and the pair starts established with nothing in flight"]
 TRUSTED = ["harness/connsim.py + netsim.py virtual clock (mpgameserver.connection.time replaced by a shim)",
+           "harness/srvsim.py + srvx.py (stepped real server loop behind every front door, configured at every moment; ScriptedSocket stands "
+           "for the OS socket under _UdpServer.run)",
            "harness/idlesim.py applies the server loop's sweep to one connection itself (DISCONNECTING -> disconnect(); removed when "
            "DISCONNECTED or ConnectionBase.timedout(connection_timeout); update() either way) instead of running UdpServerThread; "
            "Coq: C12_server_sweep_is_the_server_loop relates the same step to the server-loop model of C10/C11"]
@@ -409,6 +416,138 @@ def check_idle_pairs(run, rng, th):
         run.sample({"unit": "idle_pair_run", "case": cases[0], "last_observation": impl[0][3][-1]})
 
 
+
+# ---------------------------------------------------------------- ServerContext settings at every moment of the server object's life
+
+SRV_RULE = ("server-loop worlds (harness/srvx.py): for every front door (TwistedServer + fresh thread, the thread TwistedServer / "
+            "ThreadedServer build in their constructor, _UdpServer.run) x moment of configuration (context configured, then server built | "
+            "server object built on a default context, THEN the public setters, then start | the same values set again while running) x a "
+            "grid of connection / handshake time-outs on both sides of the defaults, keep-alive interval and message time-out: an idle client "
+            "that keeps ticking, a client that goes silent, a peer that stalls after its hello; non-trivial = world configured between "
+            "construction and start whose silent client and stalled peer were both removed")
+
+
+def settings_world(run, rng, idx, front, configure, rerun_setters):
+    from harness import srvsim as V, srvx as X
+    Tconn = rng.choice([7680, 15360, 46080, 5 * T, 8 * T])
+    Ttemp = rng.choice([3840, 7680, 2 * T, 4 * T])
+    K = rng.choice([k for k in (765, 1536, 3000, 7680) if k < Tconn])
+    Tmsg = rng.choice([3840, T, 2 * T])
+    cfg = (Tconn, Ttemp, K, Tmsg)
+    policy = V.random_policy(rng, p_raise=rng.choice([0.0, 0.3]), echo=0.0, chatty=False)     # a raising handler changes no time-out
+    try:
+        w = X.WorldX(run, rng, cfg=cfg, policy=policy, full=True, front=front, configure=configure)
+    except Exception as e:      # noqa  (a setter raised)
+        run.oracle_violation("server-setting-raised", {"world": idx, "front": front, "configured": configure, "cfg": list(cfg),
+                                                       "exception": repr(e)[:120]}, "ServerContext setters")
+        return None, None
+    sim = w.sim
+    base = {"scenario": "server settings", "world": idx, "front": front, "configured": configure,
+            "connection_timeout": Tconn, "temp_connection_timeout": Ttemp, "keep_alive": K, "message_timeout": Tmsg}
+    a_idle, a_silent, a_stall = ("10.12.0.1", 5001), ("10.12.0.2", 5002), ("10.12.0.3", 5003)
+    last_fed, prev_fed, cid_addr, disconnected, connected_before = {}, {}, {}, {}, set()
+    stall_hello_at = None
+    viol = []
+    facts, late = set(), set()
+    try:
+        idle = w.add_client(a_idle)
+        silent = w.add_client(a_silent)
+        stall = None
+        dt = rng.choice([300, 600, 1500])
+        go_silent = rng.randrange(14, 24)
+        horizon = go_silent + (max(Tconn, Ttemp, 5 * T) + 2 * T) // dt + 6
+        settings_seen = False
+        for st in range(horizon):
+            if st == go_silent:
+                silent["ticking"] = False
+                stall = w.add_client(a_stall)
+            if stall is not None and stall["ticking"] and stall_hello_at is not None:
+                stall["ticking"] = False           # the hello is out: the peer stalls mid-handshake
+            if rerun_setters and st in (5, go_silent + 3):
+                try:
+                    c = sim.ctxt
+                    c.setConnectionTimeout(Tconn / T); c.setTempConnectionTimeout(Ttemp / T)
+                    c.setKeepAliveInterval(K / T); c.setMessageTimeout(Tmsg / T)
+                except Exception as e:      # noqa
+                    viol.append(("server-setting-raised", {"exception": repr(e)[:120], "when": "running"}))
+            n0 = len(sim.log)
+            alive = w.step(dt)
+            now = w.t
+            for a, d in w.batches[-1]:
+                last_fed[a] = now
+                if a == a_stall and stall_hello_at is None and len(d) >= 20 and d[12] == 1:
+                    stall_hello_at = now
+            new_disc = []
+            for o in sim.log[n0:]:
+                if o[0] == 0 and o[1][0] == 3:
+                    cid_addr[o[1][1]] = V.va(o[1][2])
+                elif o[0] == 0 and o[1][0] == 5:
+                    new_disc.append(cid_addr.get(o[1][1]))
+            # (a) a connected client is dropped by the first sweep with now - last datagram >= the CONFIGURED time-out, not before;
+            #     the sweep of this iteration ran at `now`, BEFORE this step's datagrams were looked at
+            for a, rec in ((a_idle, idle), (a_silent, silent)):
+                if a in disconnected:
+                    if a in new_disc:
+                        viol.append(("client-disconnected-twice", {"addr": list(a), "step": st}))
+                    continue
+                was_connected = a in connected_before
+                lf = prev_fed.get(a)
+                due = was_connected and lf is not None and now - lf >= Tconn
+                if a in new_disc:
+                    disconnected[a] = now
+                    if a in late:
+                        pass            # reported when it was due
+                    elif not due:
+                        viol.append(("server-timeout-wrong-moment", {"addr": list(a), "client": "idle" if a == a_idle else "silent", "step": st,
+                                                                     "silence": None if lf is None else now - lf, "expected_after": Tconn,
+                                                                     "direction": "early"}))
+                    else:
+                        facts.add("silent-dropped")
+                elif due and a not in late:
+                    late.add(a)
+                    viol.append(("server-timeout-wrong-moment", {"addr": list(a), "client": "idle" if a == a_idle else "silent", "step": st,
+                                                                 "silence": now - lf, "expected_after": Tconn, "direction": "late"}))
+            # (b) the stalled peer's temporary slot
+            if stall_hello_at is not None and now > stall_hello_at:
+                present = a_stall in sim.ctxt.temp_connections
+                expect = now - stall_hello_at < Ttemp
+                if present != expect and "temp" not in facts:
+                    facts.add("temp")
+                    viol.append(("handshake-timeout-wrong-moment", {"addr": list(a_stall), "step": st, "since_hello": now - stall_hello_at,
+                                                                    "expected_after": Ttemp, "slot_present": present}))
+                if not present and expect is False:
+                    facts.add("stalled-removed")
+            # (c) what a connection created by the server carries
+            for a in (a_idle, a_silent):
+                sc = sim.ctxt.connections.get(a)
+                if sc is not None and not settings_seen:
+                    got = [S.ticks(sc.send_keep_alive_interval), S.ticks(sc.outgoing_timeout)]
+                    if got != [K, Tmsg]:
+                        viol.append(("setting-not-effective", {"addr": list(a), "connection_settings": got, "expected": [K, Tmsg]}))
+                    settings_seen = True
+            for a in last_fed:
+                prev_fed[a] = last_fed[a]
+            connected_before = set(cid_addr.values())
+            if not alive:
+                viol.append(("server-loop-died", {"step": st, "exception": repr(sim.thread_exc)[:120]}))
+                break
+        if a_idle in disconnected or idle["hc"].status() != 2:
+            viol.append(("idle-link-dropped", {"client_status": idle["hc"].status(), "server_dropped_at": disconnected.get(a_idle)}))
+        w.finish()
+        if sim.internal:
+            raise RuntimeError("harness-internal problem: %s" % sim.internal[:3])
+        diff = sim.check_model()
+        for what, case in viol[:4]:
+            run.oracle_violation(what, dict(base, **case), "server.py sweep / ServerContext")
+        run.count("settings_worlds")
+        run.count("settings_worlds_" + configure)
+        run.evaluations += len(sim.steps)
+        if configure == "between" and {"silent-dropped", "stalled-removed"} <= facts:
+            run.nt(("settings-world", idx, front, cfg))
+        return dict(base, first_difference=lib.jsonable(diff)), diff
+    finally:
+        w.close()
+
 def run(run):
     rng = run.rng
     th = run.thorough()
@@ -460,4 +599,16 @@ def run(run):
                 run.count("connect_timeout_cases")
     # 6. the two endpoints together
     check_idle_pairs(run, rng, th)
+    # 7. ServerContext settings at every moment of the server object's life, behind every front door
+    from harness import srvx as X
+    cases, impl, mod = [], [], []
+    combos = [(f, c) for c in ("between", "before") for f in X.FRONTS]
+    for i in range(120 if th else 10):
+        front, configure = combos[i % len(combos)]
+        with X.logging_enabled():
+            c, diff = settings_world(run, rng, i, front, configure, rerun_setters=(i % 3 == 2))
+        if c is not None:
+            cases.append(c); impl.append("agree"); mod.append("agree" if not diff else "differ")
+    run.compare("srv_run", cases, impl, mod)
+    run.rules.append(SRV_RULE)
     run.rules.append(RULE)
